@@ -22,7 +22,7 @@ CLASSES = ["SphericalDroplet", "DiffuseDroplet", "PerturbedDroplet2D", "Perturbe
 def make_grid(rng):
     from pde import CartesianGrid, CylindricalSymGrid, PolarSymGrid, SphericalSymGrid
 
-    kind = rng.choice(["c1", "c2", "c2", "c3", "polar", "spherical", "cyl"])
+    kind = rng.choice(["c1", "c2", "c2", "c3", "polar", "spherical", "cyl", "cylp"])
     if kind == "c1":
         return CartesianGrid([[0, 24]], [24], periodic=rng.random() < 0.5)
     if kind == "c2":
@@ -33,7 +33,7 @@ def make_grid(rng):
         return PolarSymGrid(10, 20)
     if kind == "spherical":
         return SphericalSymGrid(10, 20)
-    return CylindricalSymGrid(6, [0, 14], [6, 14], periodic_z=False)
+    return CylindricalSymGrid(6, [0, 14], [6, 14], periodic_z=(kind == "cylp"))
 
 
 def truth_and_candidate(rng, grid):
@@ -50,7 +50,6 @@ def truth_and_candidate(rng, grid):
         pos = np.array([rng.uniform(b[0], b[1]) if grid.periodic[a] else rng.uniform(b[0] + 4, b[1] - 4) for a, b in enumerate(grid.axes_bounds)])
         R = rng.uniform(2.5, 3.5)
     w = rng.uniform(0.8, 1.6)
-    truth = D.DiffuseDroplet(pos, R, w)
     options = ["SphericalDroplet", "DiffuseDroplet"]
     if dim == 2:
         options.append("PerturbedDroplet2D")
@@ -61,17 +60,36 @@ def truth_and_candidate(rng, grid):
     cls = rng.choice(options)
     dpos = pos.copy()
     if g == "CartesianGrid":
-        dpos = pos + np.array([rng.uniform(-1.5, 1.5) for _ in range(dim)])
+        per_axes = [a for a in range(dim) if grid.periodic[a]]
+        shift = np.zeros(dim)
+        if per_axes and rng.random() < 0.4:
+            # droplet close to a periodic boundary, candidate given by its image on the far side (outside the box)
+            for a in per_axes:
+                if rng.random() < 0.7:
+                    lo, hi = grid.axes_bounds[a]
+                    if rng.random() < 0.5:
+                        pos[a] = lo + rng.uniform(0.05, 1.4)
+                        shift[a] = hi - lo
+                    else:
+                        pos[a] = hi - rng.uniform(0.05, 1.4)
+                        shift[a] = -(hi - lo)
+        dpos = pos + shift + np.array([rng.uniform(-1.5, 1.5) for _ in range(dim)])
     elif g == "CylindricalSymGrid":
-        dpos = pos + np.array([0, 0, rng.uniform(-1.5, 1.5)])
+        if grid.periodic[1]:
+            # only used with images rendered from the candidate itself (rendering across periodic z: finding D12)
+            pos[2] = rng.choice([rng.uniform(-1.2, 0.0), rng.uniform(14.0, 15.2), rng.uniform(3, 11)])
+            dpos = pos.copy()
+        else:
+            dpos = pos + np.array([0, 0, rng.uniform(-1.5, 1.5)])
+    truth = D.DiffuseDroplet(pos, R, w)
     dR = R * rng.uniform(0.8, 1.2)
     if cls == "SphericalDroplet":
         cand = D.SphericalDroplet(dpos, dR)
     elif cls == "DiffuseDroplet":
-        cand = D.DiffuseDroplet(dpos, dR, rng.choice([None, w, 0.5]))
+        cand = D.DiffuseDroplet(dpos, dR, rng.choice([None, w, 0.5, 0.0]))
     else:
         modes = rng.choice([1, 2, 3, 4])
-        cand = getattr(D, cls)(dpos, dR, rng.choice([None, w]), [rng.choice([0.0, rng.uniform(-0.05, 0.05)]) for _ in range(modes)])
+        cand = getattr(D, cls)(dpos, dR, rng.choice([None, w, 0.0]), [rng.choice([0.0, rng.uniform(-0.05, 0.05)]) for _ in range(modes)])
     return truth, cand
 
 
@@ -103,6 +121,16 @@ def tapped_refine(field, cand, **kw):
         ia.optimize.least_squares = orig
 
 
+def periodic_axes(grid):
+    """[(index into the Cartesian position, lo, length)] of the axes along which positions are wrapped"""
+    g = type(grid).__name__
+    if g == "CartesianGrid":
+        return [(ax, grid.axes_bounds[ax][0], grid.axes_bounds[ax][1] - grid.axes_bounds[ax][0]) for ax in range(grid.dim) if grid.periodic[ax]]
+    if g == "CylindricalSymGrid" and grid.periodic[1]:
+        return [(2, grid.axes_bounds[1][0], grid.axes_bounds[1][1] - grid.axes_bounds[1][0])]
+    return []
+
+
 def flat_of(d):
     from numpy.lib.recfunctions import structured_to_unstructured
 
@@ -121,6 +149,8 @@ def run_cases(ck: Check, n: int):
         vmin, vmax = rng.choice([(0.0, 1.0), (0.0, 1.0), (5.0, 6.0), (-1.0, 0.5), (0.2, 3.0)])
         img = truth.get_phase_field(grid, vmin=vmin, vmax=vmax)
         mode = rng.choice(["clean", "noisy", "self"])
+        if type(grid).__name__ == "CylindricalSymGrid" and grid.periodic[1]:
+            mode = "self"
         if mode == "noisy":
             img.data += np.array([rng.gauss(0, 0.08 * (vmax - vmin)) for _ in range(img.data.size)]).reshape(img.data.shape)
         opt = rng.choice(["given", "none", "adjust-given", "adjust-none", "defaults"])
@@ -160,11 +190,12 @@ def run_cases(ck: Check, n: int):
         for c in cons:
             if out.position[c] != cand0.position[c]:
                 ck.fail(f"coordinate {c} fixed by the grid's symmetry changed: {cand0.position[c]} -> {out.position[c]}", {**sig, "check": "refine_constrained_untouched"}, case)
-        if gname == "CartesianGrid":
-            for ax in range(grid.dim):
-                lo, hi = grid.axes_bounds[ax]
-                if grid.periodic[ax] and not (lo <= out.position[ax] < hi + 1e-12):
-                    ck.fail(f"position {out.position} not wrapped into the box along periodic axis {ax}", {**sig, "check": "refine_wrap_in_box"}, case)
+        for ax, lo, L in periodic_axes(grid):
+            ck.count("wrap_checked")
+            if not (lo <= cand0.position[ax] < lo + L):
+                ck.count("candidate_outside_box_on_periodic_axis")
+            if not (lo <= out.position[ax] < lo + L + 1e-12):
+                ck.fail(f"position {out.position} not wrapped into the box along periodic axis {ax}", {**sig, "check": "refine_wrap_in_box"}, case)
         if "cost" in rec:
             if rec["cost_x"] > rec["cost0"] * (1 + 1e-9) + 1e-18:
                 ck.fail(f"squared deviation grew: {rec['cost0']} -> {rec['cost_x']}", {**sig, "check": "refine_cost_monotone"}, case)
@@ -175,66 +206,57 @@ def run_cases(ck: Check, n: int):
             a, b = flat_of(out), flat_of(cand0)
             scale = max(1.0, float(np.max(np.abs(b))))
             pa, pb = a.copy(), b.copy()
-            if gname == "CartesianGrid":
-                for ax in range(grid.dim):
-                    if grid.periodic[ax]:
-                        L = grid.axes_bounds[ax][1] - grid.axes_bounds[ax][0]
-                        pa[ax] = (pa[ax] - pb[ax] + L / 2) % L - L / 2 + pb[ax]
+            for ax, lo, L in periodic_axes(grid):
+                pa[ax] = (pa[ax] - pb[ax] + L / 2) % L - L / 2 + pb[ax]
             if not np.allclose(pa, pb, rtol=0, atol=1e-6 * scale):
                 ck.fail(f"image rendered from the candidate itself, but the candidate moved: {b} -> {a}", {**sig, "check": "refine_fixed_point"}, case)
         # ---------------- correspondence with the model
         if "x0" not in rec:
             continue
-        promoted = cand0 if isinstance(cand0, DiffuseDroplet) else DiffuseDroplet.from_droplet(cand0)
-        if promoted.interface_width is None:
-            promoted.interface_width = grid.typical_discretization
-        flat = flat_of(promoted)
-        modes = promoted.modes if hasattr(promoted, "amplitudes") else 0
-        # levels as the code determines them; intensities are only fitted when the range is non-zero
+        # the model receives the candidate AS GIVEN (width set or not) and does promotion, packing, scattering and wrapping itself
+        modes = len(cand0.amplitudes) if hasattr(cand0, "amplitudes") else 0
+        wset = getattr(cand0, "interface_width", None) is not None
+        crec = list(cand0.position) + [cand0.radius, cand0.interface_width if wset else 0.0] + (list(cand0.amplitudes) if modes else [])
+        nflat = grid.dim + 2 + modes
+        ck.count("candidate_width." + ("unset" if not wset else "zero" if cand0.interface_width == 0 else "positive"))
         x0 = rec["x0"]
-        adjust = bool(kw.get("adjust_values", False)) and len(x0) == len(flat) - len(cons) + 2
+        adjust = bool(kw.get("adjust_values", False)) and len(x0) == nflat - len(cons) + 2
         if adjust:
-            lv_min, lv_rng = x0[-2], x0[-1]
-            lv_max = rec["ub"][-2]
+            lv_min, lv_max = x0[-2], rec["ub"][-2]
         else:
             lv_min, lv_max = 0.0, 0.0
+        pax = {ax: (lo, L) for ax, lo, L in periodic_axes(grid)}
+        axes = " ".join(f"{fbits(pax[a][0])}:{fbits(pax[a][1])}" if a in pax else "-" for a in range(grid.dim))
         head = f"{grid.dim} {modes} {int(adjust)} {len(cons)} " + " ".join(map(str, cons))
-        reqs.append(f"c04 plan {head} {fbits(lv_min)} {fbits(lv_max)} " + " ".join(fbits(v) for v in flat))
-        expect.append(("plan", case, rec, adjust))
-        reqs.append(f"c04 finish {head} {len(flat)} " + " ".join(fbits(v) for v in flat) + " " + " ".join(fbits(v) for v in rec["x"]))
-        expect.append(("finish", case, (flat_of(out), grid), adjust))
+        reqs.append(f"c04 full {head} {axes} {fbits(float(grid.typical_discretization))} {fbits(lv_min)} {fbits(lv_max)} {int(wset)} "
+                    + " ".join(fbits(float(v)) for v in crec) + " " + " ".join(fbits(v) for v in rec["x"]))
+        expect.append((case, rec, flat_of(out), grid))
         if len(ck.samples) < 3:
             ck.sample({**case, "x0": rec["x0"].tolist(), "cost_start": rec["cost0"], "cost_end": rec["cost_x"]})
     outs = run_driver(reqs)
-    for (kind, case, payload, adjust), out in zip(expect, outs):
+    for (case, rec, got, grid), out in zip(expect, outs):
         if not out.startswith("ok"):
             ck.mismatch("c04-refine", f"model answered {out[:80]}", case)
             continue
-        if kind == "plan":
-            rec = payload
-            x0s, lbs, ubs = [p.split() for p in out[3:].split("|")]
-            dec = lambda t, inf: inf if t == "inf" else bits_to_float(t)
-            mx0 = np.array([bits_to_float(t) for t in x0s])
-            mlb = np.array([dec(t, -np.inf) for t in lbs])
-            mub = np.array([dec(t, np.inf) for t in ubs])
-            ok = mx0.shape == rec["x0"].shape and np.array_equal(mx0, rec["x0"]) and np.array_equal(mlb, rec["lb"]) and np.array_equal(mub, rec["ub"])
-            if not ok:
-                ck.mismatch("c04-refine", f"x0/bounds handed to least_squares differ from the model's plan: impl x0={rec['x0'].tolist()} lb={rec['lb'].tolist()} ub={rec['ub'].tolist()}; "
-                            f"model x0={mx0.tolist()} lb={mlb.tolist()} ub={mub.tolist()}", case)
-        else:
-            got, grid = payload
-            mflat = np.array([bits_to_float(t) for t in out.split()[1:]])
-            a, b = mflat.copy(), got.copy()
-            if a.shape != b.shape:
-                ck.mismatch("c04-refine", "returned droplet has a different layout than the model's result", case)
-                continue
-            if type(grid).__name__ == "CartesianGrid":
-                for ax in range(grid.dim):
-                    if grid.periodic[ax]:
-                        L = grid.axes_bounds[ax][1] - grid.axes_bounds[ax][0]
-                        a[ax] = (a[ax] - b[ax] + L / 2) % L - L / 2 + b[ax]
-            if not np.allclose(a, b, rtol=1e-12, atol=1e-12):
-                ck.mismatch("c04-refine", f"returned droplet {b.tolist()} is not the solver's answer scattered into the record {mflat.tolist()}", case)
+        x0s, lbs, ubs, ress = [p.split() for p in out[3:].split("|")]
+        dec = lambda t, inf: inf if t == "inf" else bits_to_float(t)
+        mx0 = np.array([bits_to_float(t) for t in x0s])
+        mlb = np.array([dec(t, -np.inf) for t in lbs])
+        mub = np.array([dec(t, np.inf) for t in ubs])
+        ok = mx0.shape == rec["x0"].shape and np.array_equal(mx0, rec["x0"]) and np.array_equal(mlb, rec["lb"]) and np.array_equal(mub, rec["ub"])
+        if not ok:
+            ck.mismatch("c04-refine", f"x0/bounds handed to least_squares differ from the model's plan for the candidate as given: impl x0={rec['x0'].tolist()} lb={rec['lb'].tolist()} ub={rec['ub'].tolist()}; "
+                        f"model x0={mx0.tolist()} lb={mlb.tolist()} ub={mub.tolist()}", case)
+        a, b = np.array([bits_to_float(t) for t in ress]), got.copy()
+        if a.shape != b.shape:
+            ck.mismatch("c04-refine", "returned droplet has a different layout than the model's result", case)
+            continue
+        for ax, lo, L in periodic_axes(grid):
+            # the floored modulo may round onto the other end of the box: identify lo and lo + L
+            if abs(abs(a[ax] - b[ax]) - L) < 1e-9 * L:
+                a[ax] = b[ax]
+        if not np.allclose(a, b, rtol=1e-12, atol=1e-9):
+            ck.mismatch("c04-refine", f"returned droplet {b.tolist()} is not the solver's answer scattered into the promoted record and wrapped into the box {a.tolist()}", case)
 
 
 def replay(case: dict):
